@@ -94,6 +94,11 @@ func (vc *VC) call(st *State, fr *Frame, x *ssa.Call, k func(*State, *Frame)) {
 					vc.atUsed = map[string]int{}
 				}
 				vc.atUsed[ac.Clause.Text]++
+				if ac.Assume {
+					vc.note("assumed at the calls of " + callee.Name() + " in " + vc.fnName + ": " + ac.Clause.Text)
+					vc.assume(st, t.S)
+					continue
+				}
 				cl := ac.Clause
 				vc.oblige(st, "at-call."+callee.Name(), labelOr(cl.Label, i+1), t.S, &cl, site)
 			}
@@ -442,6 +447,7 @@ func (vc *VC) dynCall(st *State, fr *Frame, x *ssa.Call, fv T, args []T, cont fu
 		vc.havocAll(st)
 	}
 	vc.applyPreserves(st, preCall)
+	vc.keepCaptured(st, preCall, fr)
 	r := vc.freshResult(st, sig)
 	if r.Sort == SInt {
 		nr := vc.fresh("callsR", "(Array Int Int)")
@@ -527,6 +533,57 @@ func (vc *VC) applyPreserves(st, pre *State) {
 			continue
 		}
 		vc.assume(st, fmt.Sprintf("(forall ((a Int)) (! (=> %s (= (select %s a) (select %s a))) :pattern ((select %s a))))", t.region("a"), n, o, n))
+	}
+}
+
+// keepCaptured: after a call through a function value, the variables captured
+// by the closure under verification still hold what they held before - the
+// cells are private to the closure and the function that created it; other
+// code has no reference to them.  (ASSUMED, listed.)  Variables the closure
+// itself assigns are excluded.
+func (vc *VC) keepCaptured(st, pre *State, fr *Frame) {
+	if vc.fn.Parent() == nil || len(vc.fn.FreeVars) == 0 {
+		return
+	}
+	written := map[*ssa.FreeVar]bool{}
+	for _, b := range vc.fn.Blocks {
+		for _, in := range b.Instrs {
+			if s, ok := in.(*ssa.Store); ok {
+				if fv, ok := s.Addr.(*ssa.FreeVar); ok {
+					written[fv] = true
+				}
+			}
+		}
+	}
+	noted := false
+	for _, fv := range vc.fn.FreeVars {
+		if written[fv] {
+			continue
+		}
+		pt, ok := fv.Type().Underlying().(*types.Pointer)
+		if !ok {
+			continue
+		}
+		cell, ok := vc.params["&"+fv.Name()]
+		if !ok {
+			continue
+		}
+		for _, l := range vc.leaves(pt.Elem()) {
+			if _, ok := vc.heapSort[l.key]; !ok {
+				continue
+			}
+			o := vc.heapName(pre, l.key, vc.heapSort[l.key])
+			n := vc.heapName(st, l.key, vc.heapSort[l.key])
+			if o == n {
+				continue
+			}
+			a := applyChain(l.chain, cell.S)
+			vc.assume(st, eq(app("select", n, a), app("select", o, a)))
+			if !noted {
+				noted = true
+				vc.note("assumed: function values called dynamically do not write the variables captured by " + vc.fnName + " (cells private to the closure and its creator)")
+			}
+		}
 	}
 }
 
